@@ -255,6 +255,7 @@ structure Facts where
   fltCondDirect : Tri
   keyChecked : Tri
   recreateKeepsPointer : Tri
+  patchAsksFirst : Tri
   saveReleasesImmediate : Tri
   wireExpNe0 : Tri
   deriving DecidableEq, Repr
@@ -262,7 +263,7 @@ structure Facts where
 def kvFacts (f : Facts) : Hv.C06.Facts :=
   ⟨f.resetsFlags, f.metaCompare, f.tsPositive, f.voidClears, f.pushChecksType, f.setSliceReplaces,
    f.u32delReleases, f.u32delChecksType, f.incFailClean, f.noEmptyLive, f.arekAllFalse, f.countMissingOk,
-   f.setErrSingle, f.fltCondDirect, f.keyChecked, f.recreateKeepsPointer, f.saveReleasesImmediate, f.wireExpNe0⟩
+   f.setErrSingle, f.fltCondDirect, f.keyChecked, f.recreateKeepsPointer, f.patchAsksFirst, f.saveReleasesImmediate, f.wireExpNe0⟩
 
 def cfgOf (f : Facts) : Cfg :=
   { Hv.C06.cfgOf (kvFacts f) with encoding := match f.encoding with | .typeTagged => .typeTagged | _ => .gobOmitZero }
